@@ -55,7 +55,7 @@ def main():
         "hooks": {
             "guard": "verif",
             "enable": "go test -c -tags verif -overlay=<monitors> -modfile=<copy of /repo/go.mod + porcupine> (done by /verif/check on every run, from /repo's working tree)",
-            "baseline_off_cmd": "cd /repo && PATH=/root/go/pkg/mod/golang.org/toolchain@v0.0.1-go1.25.6.linux-amd64/bin:$PATH GOTOOLCHAIN=local GOFLAGS= GOPROXY=off GOSUMDB=off go test -json -vet=off -count=1 -timeout 25m ./... > /verif/.build/baseline.json; python3 /verif/lib/baseline_cmp.py /verif/.build/baseline.json",
+            "baseline_off_cmd": "mkdir -p /verif/.build && cd /repo && PATH=/root/go/pkg/mod/golang.org/toolchain@v0.0.1-go1.25.6.linux-amd64/bin:$PATH GOTOOLCHAIN=local GOFLAGS= GOPROXY=off GOSUMDB=off go test -json -vet=off -count=1 -timeout 25m ./... > /verif/.build/baseline.json; python3 /verif/lib/baseline_cmp.py /verif/.build/baseline.json",
             "source_commits": hooks,
             "add_only": True,
         },
